@@ -188,8 +188,8 @@ Proof.
   - eapply PA_same; [| eapply on_new_worker_same; exact H | exact HC].
     unfold on_new_worker in H. inversion H; subst. reflexivity.
   - destruct (find_proc _ w); [|discriminate]. eapply on_remove_worker_PA; [| | exact H]; [exact Hok | exact HC].
-  - eapply handle_submit_array_PA; [exact F | exact HC | exact H].
-  - destruct (bad_graph_rq _ _); [inversion H; subst; eapply PA_same; [| |exact HC]; reflexivity|]. eapply handle_submit_graph_PA; eassumption.
+  - destruct (bad_submit_lengths _ _); [inversion H; subst; eapply PA_same; [| |exact HC]; reflexivity|]. eapply handle_submit_array_PA; [exact F | exact HC | exact H].
+  - destruct (bad_graph_rq _ _); [inversion H; subst; eapply PA_same; [| |exact HC]; reflexivity|]. destruct (dead_dep _ _ _); [inversion H; subst; eapply PA_same; [| |exact HC]; reflexivity|]. eapply handle_submit_graph_PA; eassumption.
   - eapply handle_open_PA; eassumption.
   - eapply handle_close_PA; eassumption.
   - eapply handle_cancel_PA; [| | exact H]; [exact Hok | exact HC].
@@ -250,7 +250,7 @@ Qed.
 (** The other direction really needs [op_wf]: a submit with two ids and one entry leaves an
     orphan job task (finding F26). *)
 Example orphan_without_op_wf : exists s outs,
-  run (init_sys 0 2) [OpSubmit None [0; 1] (Some 1) (mkRq 0 [10000; 0; 0]) 0%Z (CMax 3) false None] = Ok (s, outs)
+  handle_submit_array (init_sys 0 2, []) None [0; 1] (Some 1) (mkRq 0 [10000; 0; 0]) 0%Z (CMax 3) false None = Ok (s, outs)
   /\ map t_id (c_tasks (s_core s)) = [(1, 0)] /\ map j_tasks (h_jobs (s_hq s)) = [[(0, JW); (1, JW)]].
 Proof. do 2 eexists. split; [vm_compute; reflexivity|]. split; vm_compute; reflexivity. Qed.
 
